@@ -269,7 +269,8 @@ def dec : R SectionDividerSetting := fun d p => do
           if bm ∈ Psd.G.blendModes then .ok ((some sig, some bm), p) else .error .valueError
         else .error .assertionError
       else .ok ((none, none), p) : Except Err ((Option B × Option B) × Nat))
-    let (sub, p) ← (if isReadable 4 d p then Codec.optItem (readU 4) d p else .ok (none, p))
+    -- `if signature is not None and is_readable(fp, 4):` (repo commit f04fc34: a sub type only behind a blend mode)
+    let (sub, p) ← (if tail.1.isSome && isReadable 4 d p then Codec.optItem (readU 4) d p else .ok (none, p))
     .ok (⟨kind, tail.1, tail.2, sub⟩, p)
   else .error .valueError
 
